@@ -102,9 +102,24 @@ def r01a(chk, rid='R01.a'):
 # ---------------------------------------------------------------------------
 
 
-def returns_state(target):
+def _local_helper(m, target, call):
+    """The def a `return helper(...)` hands the result of: a function nested in the same owner
+    (or at module level) as the callback; None for anything else (methods, library calls)."""
+    if m is None or not isinstance(call, ast.Call) or not isinstance(call.func, ast.Name):
+        return None
+    owner = m.enclosing_def(target)
+    scopes = [owner] if owner is not None else []
+    scopes.append(m.tree)
+    for sc in scopes:
+        for d in ast.walk(sc):
+            if isinstance(d, ast.FunctionDef) and d.name == call.func.id and d is not target and (m.enclosing_def(d) is sc or (sc is m.tree and m.enclosing_def(d) is None)):
+                return d
+    return None
+
+
+def returns_state(target, m=None, _depth=0):
     """(ok, reason) - every path of a production callback returns a value that
-    is not None."""
+    is not None; `return helper(...)` is followed into a local helper."""
     if isinstance(target, ast.Lambda):
         b = target.body
         if isinstance(b, ast.Constant) and b.value is None:
@@ -123,6 +138,11 @@ def returns_state(target):
             v = n.stmt.value
             if v is None or (isinstance(v, ast.Constant) and v.value is None):
                 return False, f'`{text(n.stmt)}` returns None'
+            h = _local_helper(m, target, v) if _depth < 3 else None
+            if h is not None:
+                ok, why = returns_state(h, m, _depth + 1)
+                if not ok:
+                    return False, f'`{text(n.stmt)}` hands on the result of {h.name}, and there ' + why
     return True, ''
 
 
@@ -132,7 +152,7 @@ def r01b(chk, rid='R01.b'):
     seen = set()
     for cb in cbs:
         key = (cb.rel, cb.qual, cb.key if isinstance(cb.target, ast.Lambda) else '')
-        ok, why = returns_state(cb.target)
+        ok, why = returns_state(cb.target, chk.repo.mod(cb.rel))
         label = f"{cb.owner}: '{cb.key}' -> {text(cb.expr) if not isinstance(cb.target, ast.Lambda) else text(cb.target)}"
         chk.ob(rid, cb.rel, cb.owner, label, ok,
                why + ' - Base._parse rebinds `expected` to the result; the next callback compares or concatenates it',
